@@ -20,7 +20,22 @@ impl Caught {
         }
         let mut msg = String::new();
         let mut last_digit = false;
-        for c in self.message.chars().take(70) {
+        // tokens that look like node ids / quoted data are replaced, so that one panic site gives one signature
+        let cleaned: Vec<String> = self
+            .message
+            .split(' ')
+            .map(|t| {
+                if t != "==" && t != "!=" && (t.contains('=') || t.contains(';')) {
+                    "ID".to_string()
+                } else if t.starts_with('\'') && t.chars().count() <= 4 {
+                    "CH".to_string()
+                } else {
+                    t.to_string()
+                }
+            })
+            .collect();
+        let cleaned = cleaned.join(" ");
+        for c in cleaned.chars().take(60) {
             if c.is_ascii_digit() {
                 if !last_digit {
                     msg.push('N');
